@@ -311,6 +311,10 @@ func run(s *kernel.Sim, c *scen.Case) {
 			// rogues aim at this dial's listener as soon as a broker has learnt its address
 			for r := 0; r < nrogues; r++ {
 				kind := kernel.Pick(t, "rogue", "wrongid", "emptyid", "garbage", "close", "halfclose", "halfclose-partial", "silent", "stale", "prefix", "extended", "upper", "noid", "intid")
+				// when it connects: as soon as a request is known; at the instant a legitimate connection for
+				// a sibling attempt of the same dial is on its way (the dial is about to be decided and the
+				// other attempts cancelled); or at the instant the attempt's own timeout expires
+				when := kernel.Pick(t, "rogue.when", "asap", "asap", "at-win", "at-deadline")
 				d, r := d, r
 				s.Go(fmt.Sprintf("rogue%d.%d", d, r), func() {
 					var rq *request
@@ -325,6 +329,40 @@ func run(s *kernel.Sim, c *scen.Case) {
 						}
 					}
 					if rq == nil {
+						return
+					}
+					switch when {
+					case "at-win":
+						for i := 0; i < 2000 && !w.stop; i++ {
+							won := false
+							for _, cn := range w.connectors {
+								if cn.dialNo == d && strings.HasPrefix(cn.who, "legit") {
+									won = true
+								}
+							}
+							if won {
+								break
+							}
+							s.Sleep(fmt.Sprintf("rogue%d.%d", d, r), 5*time.Millisecond)
+						}
+						// prefer the listener of an attempt that is not the one being won
+						for _, q := range w.requests {
+							won := false
+							for _, cn := range w.connectors {
+								if cn.dialNo == d && cn.presented == q.connect {
+									won = true
+								}
+							}
+							if q.dialNo == d && !q.proxied && !won {
+								rq = q
+							}
+						}
+					case "at-deadline":
+						if wait := rq.received + 20*time.Second - s.Now(); wait > 0 {
+							s.Sleep(fmt.Sprintf("rogue%d.%d", d, r), wait)
+						}
+					}
+					if w.stop {
 						return
 					}
 					id, k := "0123456789abcdef0123456789abcdef01234567", "hello"
